@@ -69,6 +69,15 @@ reg("C14", "exploration",
     "Original alignment = exons column of read_assignments.tsv (after polyA-exon trimming, which C16 checks).",
     "property-based testing (Hypothesis) with validity predicate + provenance oracle", "DESIGN.md section 4 C14")
 
+reg("C02", "exploration",
+    "Hypothesis-generated mixed read sets run under all 5x5 quantification strategies and both normalisations; every "
+    "cell of gene/transcript/transcript-model count tables is recounted from read_assignments.tsv / "
+    "transcript_model_reads.tsv with the documented weights (zero-or-exact-sum rule, never-zeroed rule, special "
+    "lines, TPM rescaling).",
+    "Two known findings (multi-locus reads counted fully at every locus) are listed in known_findings.jsonl; the "
+    "__ambiguous/__no_feature unit (read vs record) is accepted either way for multi-locus reads.",
+    "property-based testing (Hypothesis) with independent recount oracle", "DESIGN.md section 4 C02")
+
 NOT_YET = "check not built yet in this session (see DESIGN.md section 6a build order)"
 
 
